@@ -28,6 +28,7 @@ type tcase struct {
 	StartOffset int      `json:"start_offset"`     // saved offset for start=continue (always a line boundary of parts[0])
 	Create      bool     `json:"notify_create"`    // appends are announced by a create/rename-style notification (no write flag: refreshFile does not re-seek) instead of a write notification
 	Idle        bool     `json:"idle_maintenance"` // an idle maintenance round (close + reopen of the file at EOF) runs before every append
+	Other       int      `json:"other_stream_offset,omitempty"` // start=continue: 1 + the saved offset of a second stream of the file (0: there is none)
 	Prev        bool     `json:"previous_job"`     // the worker first reads another file whose content is the unterminated "ab", and between the rounds is handed that file again, grown by an unterminated "c"
 }
 
@@ -43,6 +44,10 @@ type want struct {
 func refFirstStart(tc *tcase, content string) int {
 	switch tc.Start {
 	case file.VerifStartContinue:
+		// the file is read again from the lowest offset saved for any of its streams
+		if tc.Other > 0 && tc.Other-1 < tc.StartOffset {
+			return tc.Other - 1
+		}
 		return tc.StartOffset
 	case file.VerifStartTail:
 		// offsets_op=tail: "current offset may be in the middle of an event, so worker skips data to the next line":
@@ -92,6 +97,9 @@ func nontrivial(tc *tcase, content string) bool {
 	switch tc.Start {
 	case file.VerifStartContinue:
 		pos = tc.StartOffset
+		if tc.Other > 0 && tc.Other-1 < pos {
+			pos = tc.Other - 1
+		}
 	case file.VerifStartTail:
 		if len(tc.Parts[0]) > 0 {
 			pos = len(tc.Parts[0]) - 1
@@ -320,6 +328,7 @@ func (c *checker) check(tc *tcase) int {
 			}
 			r.Steps(1)
 		}
+		e.rig.OtherStream = int64(tc.Other) - 1
 		j, err := e.rig.Open(c.path, tc.Start, int64(tc.StartOffset))
 		if err != nil {
 			panic(err)
@@ -621,6 +630,12 @@ func TestVerif(t *testing.T) {
 							// create-style notification (the job's own curOffset is used); quick: one of the two per buffer size
 							tc.Create = len(parts) > 1 && (b == 2 || b == 4 || b == 8)
 							c.check(&tc)
+							if s.kind == file.VerifStartContinue && (b == 3 || b == 8) {
+								// a second stream of the file with a saved offset of 0 (zeroed by a truncation) or of a line boundary
+								tc.Other = 1
+								c.check(&tc)
+								tc.Other = 0
+							}
 							if thorough && len(parts) > 1 && n <= 8 {
 								tc.Create = !tc.Create
 								c.check(&tc)
